@@ -1,12 +1,21 @@
 #!/bin/sh
-# Run once after a fresh restore, offline: verify the tools and pre-build the harness.
-set -e
+# Run once after a fresh restore, offline: verify the tools and pre-build the harness binaries
+# (every check rebuilds its own binary from /repo's current working tree anyway).
 cd "$(dirname "$0")"
 export GOFLAGS=-mod=mod GOPROXY=off GOSUMDB=off GOTOOLCHAIN=local
-command -v java >/dev/null
-command -v go >/dev/null
-test -f /opt/veriftools/tla/tla2tools.jar
+command -v java >/dev/null || { echo "java missing"; exit 1; }
+command -v go >/dev/null || { echo "go missing"; exit 1; }
+command -v python3 >/dev/null || { echo "python3 missing"; exit 1; }
+test -f /opt/veriftools/tla/tla2tools.jar || { echo "tla2tools.jar missing"; exit 1; }
 cat /repo/*/go.sum | sort -u > harness/go.sum
 mkdir -p harness/bin out evidence
-(cd harness && for d in cmd/*/; do go build -tags verif -o bin/h-$(basename $d | tr a-z A-Z) ./$d; done)
-echo setup ok
+fail=0
+for n in 01 02 03 04 05 06 07 08 09 10 11 12 13 14 15 16 17 18 19 20; do
+  (cd harness && go build -tags verif -o bin/h-C$n ./cmd/c$n) || fail=1
+done
+# extension specs beyond the listed properties (optional)
+for x in x1 x2; do
+  [ -d harness/cmd/$x ] && (cd harness && go build -tags verif -o bin/h-$(echo $x | tr a-z A-Z) ./cmd/$x 2>/dev/null) || true
+done
+[ $fail = 0 ] && echo setup ok
+exit $fail
